@@ -92,9 +92,25 @@ fn evaluate(before: &Document, after: &Document, start: u32) -> Result<(), Strin
             return Err(format!("object numbers are not consecutive from {}: position {} has number {}", start, k, id.0));
         }
     }
-    if let Some(last) = after.objects.keys().last() {
-        if after.max_id != last.0 {
-            return Err(format!("max_id {} is not the last object number {}", after.max_id, last.0));
+    // "the maximum id equals the last one": the last number assigned, whatever max_id was before (ids reserved with
+    // new_object_id, objects added and deleted again, a max_id that was never set) and whether or not an object moved
+    match after.objects.keys().last() {
+        Some(last) => {
+            if after.max_id != last.0 {
+                return Err(format!(
+                    "max_id {} is not the last object number {} (max_id before: {})",
+                    after.max_id, last.0, before.max_id
+                ));
+            }
+        }
+        None => {
+            // no object: numbering continues at `start`, i.e. the last number is the one before it (0 for start 0)
+            if after.max_id != start.saturating_sub(1) {
+                return Err(format!(
+                    "document without objects renumbered from {}: max_id is {} (before: {}), the next new object would not get number {}",
+                    start, after.max_id, before.max_id, start.max(1)
+                ));
+            }
         }
     }
     // 2. one-to-one renaming discovered in lock step from the trailer and the bookmark targets
